@@ -18,7 +18,7 @@ Tie, two layers:
  (wide layer) modules over the wide algebra incl. recursion (lib/widegen.py) with
    values from asn_random_fill, same mutators, all five decoders: survival and
    consistency only."""
-import sys, os, re, json
+import sys, os, re, json, time
 sys.path.insert(0, os.path.join(os.path.dirname(os.path.abspath(__file__)), "..", "lib"))
 from vlib import *
 from modcorpus import *
@@ -32,6 +32,11 @@ WRAP = ["-Wl,--wrap=malloc,--wrap=calloc,--wrap=realloc,--wrap=free"]
 SYN_KEY = {"ber": "der", "uper": "uper", "oer": "oer", "xer": "xer"}
 MODEL_CMD = {"ber": "berdec %s %s", "uper": "uperdec 0 %s %s", "oer": "oerdec %s %s"}
 MODEL_MAXLEN = 300          # octets; the reference BER decoder is quadratic in the number of TLVs
+
+
+def tlog(msg):
+    if os.environ.get("C04_VERBOSE"):
+        log("[%6.1fs] %s" % (time.time() - T0, msg))
 
 
 def own_findings():
@@ -67,7 +72,7 @@ def mutants(syn, b, rng, tier, others):
     return out
 
 
-def classify_crash(err, rc, meta, tree):
+def classify_crash(err, rc, meta, tree, mtext=""):
     """finding id or None for a dying decoder: site (innermost library frames) + input shape"""
     site = stack_site(err)
     funcs = [f.split("@")[0] + "@" + f.split("@")[1].split(":")[0] for f in site]
@@ -79,6 +84,12 @@ def classify_crash(err, rc, meta, tree):
     if ("heap-buffer-overflow" in (err or "") and "READ of size 1" in err and syn == "oer" and funcs[:1] == ["INTEGER_decode_oer@INTEGER_oer.c"]
             and (tree is None or has_oer_positive_varlen_int(tree)) and oer_zero_length_tail(data)):
         return "C04-oer-integer-empty-contents"
+    if (rc == 78 and funcs[:1] == ["UniversalString__dump@UniversalString.c"] and "UniversalString" in mtext
+            and re.search(r"runtime error: left shift of (1[2-9]\d|2\d\d) by 24 places cannot be represented in type 'int'", err or "")):
+        return "C04-universalstring-print-shift"
+    if ("pc points to the zero page" in (err or "") and re.search(r"#0 0x0\s", err) and syn in ("uper", "oer") and re.search(r"\bSET\s*\{", mtext)
+            and len(funcs) >= 1 and re.match(r"(\w+_decode_(uper|oer)@constr_|uper_decode@per_decoder|oer_decode@oer_decoder|uper_open_type_get_simple@per_opentype)", funcs[0])):
+        return "C04-set-no-per-oer-null-call"
     return None
 
 
@@ -102,7 +113,7 @@ def report_crash(run, m, line, meta, info, layer):
     what, rc, err = info
     site = stack_site(err)
     tree = m["trees"].get(meta["tn"]) if m.get("trees") else None
-    fid = classify_crash(err, rc, meta, tree)
+    fid = classify_crash(err, rc, meta, tree, m.get("text", ""))
     if fid:
         run.known_finding(fid, line)
         run.count("known_" + fid)
@@ -131,7 +142,12 @@ def check_c_line(run, m, line, o, meta, layer, tainted=None):
         run.violation("oracle:%s:consumed>size" % layer, dict(rep, what="consumed %d > size %d" % (r["consumed"], size)))
     if r["live"] != 0:
         run.violation("oracle:%s:leak" % layer, dict(rep, what="%d block(s) still live after ASN_STRUCT_FREE of the %s result" % (r["live"], r["rc"])))
-    if r["rc"] == "OK":
+    if r["rc"] == "OK" and layer == "wide":
+        # no reference here: the value-level expectations (re-encodable, prefix never accepted) are only counted
+        for k, c in (("der_encfail", r["der"] == "ENCFAIL" and r["ck"] == 0), ("re_fail", r["re"] == "FAIL" and r["ck"] == 0), ("prefix_ok", kind == "trunc")):
+            if c:
+                run.count("wide_%s_%s" % (syn, k))
+    elif r["rc"] == "OK":
         if r["der"] == "-":
             run.violation("oracle:%s:ok-without-structure" % layer, dict(rep, what="RC_OK but no structure returned"))
         elif r["der"] == "ENCFAIL" and r["ck"] == 0:
@@ -177,19 +193,19 @@ def der_has_negative_prim(derhex):
 def model_layer(run, rng, tier, model):
     nm, nt, nv = (8, 5, 5) if tier == "quick" else (40, 6, 10)
     mods, cases = build_corpus(run, rng, nm, nt, nv, tier, tag="mods", moddrv_extra=INC, extra_ldflags=WRAP)
+    tlog("model: corpus of %d modules, %d cases built" % (len(mods), len(cases)))
     bm = by_module(cases)
     for m in mods:
         if not m.get("exe"):
             run.violation("build:module", {"what": "a valid generated module was rejected or its code does not compile", "module": m["text"],
                                            "asn1c_out": m.get("asn1c_out", "")[-1200:], "build_log": m.get("build_log", "")[-1200:]}, no_input=True)
     jobs = []
-    for m in mods:
-        if not m.get("exe"):
-            continue
+    live = [m for m in mods if m.get("exe")]
+    # XER text of every value, from the C
+    xjobs = [(m["exe"], ["xcode %s der %s xer" % (c["tn"], c["der"]) for c in bm.get(m["name"], [])]) for m in live]
+    xres = run_many(xjobs)
+    for m, (exe, xl), (xo, xe) in zip(live, xjobs, xres):
         cs = bm.get(m["name"], [])
-        # XER text of every value, from the C
-        xl = ["xcode %s der %s xer" % (c["tn"], c["der"]) for c in cs]
-        xo, xe = run_par(m["exe"], xl)
         for c, o in zip(cs, xo):
             c["xer"] = o.split()[1] if o.startswith("OK ") else "NONE"
         for k, info in xe.items():
@@ -214,8 +230,12 @@ def model_layer(run, rng, tier, model):
                     lines.append("d4 %s %s %s" % (c["tn"], syn, hexs(data)))
                     metas.append({"case": c, "tn": c["tn"], "syn": syn, "kind": kind, "data": data, "orig": b})
         jobs.append((m, lines, metas))
-    for m, lines, metas in jobs:
-        outs, errs = run_par(m["exe"], lines)
+    tlog("model: %d mutant lines generated" % sum(len(j[1]) for j in jobs))
+    cres = run_many([(m["exe"], lines) for m, lines, metas in jobs])
+    tlog("model: C side done, %d process deaths" % sum(len(e) for o, e in cres))
+    allres = []
+    mlines, mwhere = [], []
+    for (m, lines, metas), (outs, errs) in zip(jobs, cres):
         taint = reencode_taint(m)
         results = []
         for i, (l, o, me) in enumerate(zip(lines, outs, metas)):
@@ -228,45 +248,176 @@ def model_layer(run, rng, tier, model):
             if i in errs:          # leak report at exit although every live delta was 0: harness-level
                 report_crash(run, m, l, dict(me, kind="exit"), errs[i], "model")
             results.append(check_c_line(run, m, l, o.replace(" ATEXIT", ""), me, "model", taint))
-        # ---- one-directional refinement against the reference decoders
-        idx = [i for i, me in enumerate(metas) if me["syn"] in MODEL_CMD and len(me["data"]) <= MODEL_MAXLEN and results[i] is not None]
-        ml = [MODEL_CMD[metas[i]["syn"]] % (metas[i]["case"]["ts"], hexs(metas[i]["data"])) for i in idx]
-        mo = model_par(model, ml)
-        acc = [(i, o.split()) for i, o in zip(idx, mo) if o.startswith("OK ")]
-        dl = ["der %s %s" % (metas[i]["case"]["ts"], f[2]) for i, f in acc]
-        do = model_par(model, dl)
-        accepted = {i: (int(f[1]), f[2], d) for (i, f), d in zip(acc, do)}
-        # types whose UPER encoding has no bits at all (the model then accepts ANY buffer, reporting one octet; the C's
-        # uper_decode_complete wants that octet to exist and to be zero: X.691 11.1.3)
-        tss = sorted(set(me["case"]["ts"] for me in metas))
-        zb = model_par(model, ["uperdec 0 %s -" % ts for ts in tss])
-        zero_bit = {ts for ts, o in zip(tss, zb) if o.startswith("OK ")}
-        for i in idx:
-            me, r = metas[i], results[i]
-            syn = me["syn"]
-            if i in accepted:
-                n, v, d = accepted[i]
-                run.count("model_%s_accepts" % syn)
-                if me["kind"] != "valid":
-                    run.count("model_%s_accepts_mutant" % syn)
-                if syn == "uper" and me["case"]["ts"] in zero_bit:
-                    data = me["data"]
-                    exp = ("MORE", 0, "-") if len(data) == 0 else (("OK", 1, d) if data[0] == 0 else ("FAIL", 0, "-"))
-                    run.count("uper_zero_bit_type")
-                    good = (r["rc"], r["consumed"], r["der"]) == exp
-                else:
-                    good = (r["rc"] == "OK" and r["consumed"] == n and r["der"] == d)
-                if not good:
-                    refine_disagreement(run, m, lines[i], outs[i], me, r, n, v, d)
+        allres.append(results)
+        for i, me in enumerate(metas):
+            if me["syn"] in MODEL_CMD and len(me["data"]) <= MODEL_MAXLEN and results[i] is not None:
+                mlines.append(MODEL_CMD[me["syn"]] % (me["case"]["ts"], hexs(me["data"])))
+                mwhere.append((len(allres) - 1, i))
+    # ---- one-directional refinement against the reference decoders
+    mo = model_par(model, mlines)
+    tlog("model: reference decoders done (%d lines)" % len(mlines))
+    acc = [(w, o.split()) for w, o in zip(mwhere, mo) if o.startswith("OK ")]
+    do = model_par(model, ["der %s %s" % (jobs[j][2][i]["case"]["ts"], f[2]) for (j, i), f in acc])
+    accepted = {w: (int(f[1]), f[2], d) for (w, f), d in zip(acc, do)}
+    # types whose UPER encoding has no bits at all (the model then accepts ANY buffer, reporting one octet; the C's
+    # uper_decode_complete wants that octet to exist and to be zero: X.691 11.1.3)
+    tss = sorted(set(c["ts"] for c in cases))
+    zb = model_par(model, ["uperdec 0 %s -" % ts for ts in tss])
+    zero_bit = {ts for ts, o in zip(tss, zb) if o.startswith("OK ")}
+    tlog("model: re-encodings done (%d accepted)" % len(acc))
+    for (j, i) in mwhere:
+        m, lines, metas = jobs[j]
+        outs = cres[j][0]
+        me, r = metas[i], allres[j][i]
+        syn = me["syn"]
+        if (j, i) in accepted:
+            n, v, d = accepted[(j, i)]
+            run.count("model_%s_accepts" % syn)
+            if me["kind"] != "valid":
+                run.count("model_%s_accepts_mutant" % syn)
+            if syn == "uper" and me["case"]["ts"] in zero_bit:
+                data = me["data"]
+                exp = ("MORE", 0, "-") if len(data) == 0 else (("OK", 1, d) if data[0] == 0 else ("FAIL", 0, "-"))
+                run.count("uper_zero_bit_type")
+                good = (r["rc"], r["consumed"], r["der"]) == exp
             else:
-                run.count("model_%s_rejects" % syn)
-                if r["rc"] == "OK":
-                    run.count("lenient_%s" % syn)       # the C accepts what the reference rejects: not forbidden by C04, counted
-                    if len(run.cov.setdefault("lenient_samples", [])) < 8:
-                        run.cov["lenient_samples"].append({"type": me["case"]["ts"], "syntax": syn, "input": hexs(me["data"])[:120], "c": outs[i][:160]})
+                good = (r["rc"] == "OK" and r["consumed"] == n and r["der"] == d)
+            if not good:
+                refine_disagreement(run, m, lines[i], outs[i], me, r, n, v, d)
+        else:
+            run.count("model_%s_rejects" % syn)
+            if r["rc"] == "OK":
+                run.count("lenient_%s" % syn)       # the C accepts what the reference rejects: not forbidden by C04, counted
+                if len(run.cov.setdefault("lenient_samples", [])) < 8:
+                    run.cov["lenient_samples"].append({"type": me["case"]["ts"], "syntax": syn, "input": hexs(me["data"])[:120], "c": outs[i][:160]})
+    for (m, lines, metas), (outs, errs) in zip(jobs, cres):
         if lines:
             run.sample({"module": m["name"], "lines": len(lines), "first": lines[0][:100], "c": outs[0][:100]})
     return mods
+
+
+WIDE_FEATURES = ["ext", "default", "set", "recursion", "real", "time", "oid", "strings", "bits", "enum"]
+
+
+def deep_inputs(syn, b, rng):
+    """inputs that nest deeply when the type is recursive: the leading octets of a valid encoding repeated"""
+    out = []
+    if syn == "ber":
+        tl = ber_walk(b)
+        if tl and tl[0][4]:
+            t0, l0, c0, c1, cons, d = tl[0]
+            inner = [t for t in tl if t[5] == 1 and t[4]]
+            hdrs = [b[t0:l0] + b"\x80"] + ([b[inner[0][0]:inner[0][1]] + b"\x80"] if inner else [])
+            for n in (300, 20000):
+                out.append(("deep", b"".join(hdrs) * n))
+                out.append(("deep", b"".join(hdrs) * n + b + b"\x00\x00" * (n * len(hdrs))))
+    elif syn == "xer":
+        tags = re.findall(rb"<[^/<>!?][^<>/]*>", b)[:3]
+        for k in (1, 2, 3):
+            if len(tags) >= k:
+                for n in (300, 20000):
+                    out.append(("deep", b"".join(tags[:k]) * n))
+    else:
+        for k in (1, 2, 3):
+            if len(b) >= k:
+                for n in (300, 20000):
+                    out.append(("deep", b[:k] * n))
+        out.append(("deep", b"\xff" * 5000))
+        out.append(("deep", b"\x80" * 5000))
+    return out
+
+
+def wide_layer(run, rng, tier):
+    """modules over the wide algebra (no model): survival and consistency of all decoders on mutated inputs"""
+    nmod, nty, nval = (6, 4, 2) if tier == "quick" else (30, 5, 6)
+    wg = WGen(rng, features=WIDE_FEATURES)
+    wmods = []
+    for i in range(nmod * 4):
+        if len(wmods) >= nmod:
+            break
+        wm = wg.module("W%d" % len(wmods), nty)
+        # an anonymous X OF directly inside an X OF trips known compiler defects (parser assertion with an inner SIZE,
+        # uncompilable Member__Member structs: C10/C12 findings): such modules would only be skipped below
+        if re.search(r"OF (SEQUENCE|SET)( \(SIZE\([^)]*\)\))? OF", wm["text"]):
+            run.count("wide_module_regenerated")
+            continue
+        wmods.append(wm)
+    tlog("wide: generating and building %d modules" % nmod)
+    build_modules(wmods, tag="wide", moddrv_extra=INC, extra_ldflags=WRAP)
+    tlog("wide: built")
+    live = []
+    for m in wmods:
+        if not m.get("exe"):
+            run.count("wide_module_not_built")        # C10's business (and its findings); not a C04 statement
+            continue
+        m["trees"] = {}
+        live.append(m)
+    fjobs = [(m["exe"], ["rfill %s %d %d" % (tn, rng.below(100000), rng.choice([8, 32, 64, 200])) for tn, _ in m["defs"] for k in range(nval)]) for m in live]
+    fres = run_many(fjobs)
+    xjobs = []
+    for m, (exe, fills), (fo, fe) in zip(live, fjobs, fres):
+        run.count("wide_rfill_died", len(fe))          # asn_random_fill is a test helper, not a decoder: only costs an input
+        vals = []
+        for l, o in zip(fills, fo):
+            f = o.split()
+            if len(f) == 3 and f[0] == "OK" and f[1] not in ("ENCFAIL", "-"):
+                vals.append((l.split()[1], f[1]))
+            else:
+                run.count("wide_value_unusable")
+        m["vals"] = sorted(set(vals))
+        xjobs.append((m["exe"], ["xcode %s der %s %s" % (tn, d, sy) for (tn, d) in m["vals"] for sy in ("uper", "oer", "xer")]))
+    xres = run_many(xjobs)
+    tlog("wide: values and their encodings obtained")
+    jobs = []
+    maxlines = 1500 if tier == "quick" else 20000
+    for m, (exe, xl), (xo, xe) in zip(live, xjobs, xres):
+        # an ENCODER dying on a value of asn_random_fill is C07/C01's subject; it only costs this check an input
+        run.count("wide_encoder_died", len(xe))
+        vals = m["vals"]
+        enc = {}
+        for l, o in zip(xl, xo):
+            f = l.split()
+            if o.startswith("OK ") and len(o.split()) == 2:
+                enc[(f[1], f[3], f[4])] = o.split()[1]
+        lines, metas, seen = [], [], set()
+        for (tn, d) in vals:
+            for syn in ("ber", "uper", "oer", "xer"):
+                h = d if syn == "ber" else enc.get((tn, d, syn))
+                if not h or h == "-":
+                    continue
+                b = bytes.fromhex(h)
+                if len(b) > 4000:
+                    continue
+                others = [(d2 if syn == "ber" else enc.get((t2, d2, syn), "")) for (t2, d2) in cap(vals, 3, rng)]
+                muts = mutants(syn, b, rng, tier, [bytes.fromhex(o) for o in others if o and o != "-"])
+                muts += deep_inputs(syn, b, rng)
+                for kind, data in muts:
+                    key = (tn, syn, data)
+                    if key in seen or (kind == "trunc" and len(data) >= len(b)):
+                        continue
+                    seen.add(key)
+                    lines.append("d4 %s %s %s" % (tn, syn, hexs(data)))
+                    metas.append({"tn": tn, "syn": syn, "kind": kind, "data": data, "orig": b})
+        if len(lines) > maxlines:
+            keep = sorted(set(rng.below(len(lines)) for _ in range(maxlines)))
+            lines, metas = [lines[i] for i in keep], [metas[i] for i in keep]
+        jobs.append((m, lines, metas))
+    tlog("wide: %d mutant lines generated" % sum(len(j[1]) for j in jobs))
+    cres = run_many([(m["exe"], lines) for m, lines, metas in jobs], per_chunk=40)
+    tlog("wide: C side done, %d process deaths" % sum(len(e) for o, e in cres))
+    for (m, lines, metas), (outs, errs) in zip(jobs, cres):
+        for i, (l, o, me) in enumerate(zip(lines, outs, metas)):
+            run.case(l)
+            run.count("wmut_" + me["kind"].split("+")[-1])
+            if i in errs and errs[i][0] == "CRASH":
+                report_crash(run, m, l, me, errs[i], "wide")
+                continue
+            if i in errs:
+                report_crash(run, m, l, dict(me, kind="exit"), errs[i], "wide")
+            check_c_line(run, m, l, o.replace(" ATEXIT", ""), me, "wide", None)
+        if lines:
+            run.sample({"wide_module": m["text"][:300], "lines": len(lines), "first": lines[0][:100], "c": outs[0][:100]})
+    return wmods
 
 
 def refine_disagreement(run, m, line, o, me, r, n, v, d):
@@ -328,7 +479,8 @@ def main(tier):
                                                    "log_tail": (out if not ok else plog)[-2000:], "grep_gate": gate}, no_input=True)
     model = model_build()
     try:
-        mods = model_layer(run, rng, tier, model)
+        mods = model_layer(run, rng, tier, model) if not os.environ.get("C04_ONLY_WIDE") else []
+        wmods = wide_layer(run, rng, tier)
     except BuildError as e:
         run.violation("build", {"what": str(e)[-2500:]}, no_input=True)
         return run.finish("proof", (nthm, ndis))
@@ -336,7 +488,7 @@ def main(tier):
         json.dump(run.violations, open(os.environ["C04_DUMP"], "w"), indent=1)
     return run.finish("proof", (nthm, ndis),
                       checker_cmd="make -C /verif all && coqc -Q coq A1 coq/Props/Properties_C04.v",
-                      extra_cov={"theorems": names, "modules": len(mods), "traces_validated_against_impl": run.cov["evaluations"]})
+                      extra_cov={"theorems": names, "modules": len(mods), "wide_modules": len(wmods), "traces_validated_against_impl": run.cov["evaluations"]})
 
 
 if __name__ == "__main__":
